@@ -689,7 +689,19 @@ func guardsOf(b *ssa.BasicBlock) []Lit {
 // cmpLit decomposes a comparison literal into (op, x, y) with the polarity folded into the operator.
 func (l Lit) cmp() (token.Token, ssa.Value, ssa.Value, bool) {
 	b, ok := l.Cond.(*ssa.BinOp)
-	if !ok {
+	var bx, by ssa.Value
+	if ok {
+		bx, by = b.X, b.Y
+	} else if call, isCall := l.Cond.(*ssa.Call); isCall {
+		// a named comparison: `func (t *T) inState(s state) bool { return t.state == s }` - its operands with the
+		// helper's parameters replaced by the call's arguments
+		pop, px, py, isPred := predicateOperands(call)
+		if !isPred {
+			return 0, nil, nil, false
+		}
+		b = &ssa.BinOp{Op: pop}
+		bx, by = px, py
+	} else {
 		return 0, nil, nil, false
 	}
 	op := b.Op
@@ -713,9 +725,86 @@ func (l Lit) cmp() (token.Token, ssa.Value, ssa.Value, bool) {
 	}
 	switch op {
 	case token.EQL, token.NEQ, token.LSS, token.GEQ, token.GTR, token.LEQ:
-		return op, b.X, b.Y, true
+		return op, bx, by, true
 	}
 	return 0, nil, nil, false
+}
+
+// predicateOperands: call invokes an unexported single-block function whose result is one comparison each operand of
+// which is a parameter (replaced by the call's argument) or an expression free of parameters other than the receiver
+// (field loads, constants: used as they are).
+func predicateOperands(call *ssa.Call) (token.Token, ssa.Value, ssa.Value, bool) {
+	h := call.Call.StaticCallee()
+	if h == nil || h.Blocks == nil || len(h.Blocks) != 1 || h.Object() == nil || h.Object().Exported() {
+		return 0, nil, nil, false
+	}
+	var res ssa.Value
+	for _, in := range h.Blocks[0].Instrs {
+		switch x := in.(type) {
+		case *ssa.FieldAddr, *ssa.BinOp, *ssa.Convert, *ssa.ChangeType, *ssa.DebugRef, *ssa.UnOp:
+		case *ssa.Return:
+			if len(x.Results) != 1 {
+				return 0, nil, nil, false
+			}
+			res = x.Results[0]
+		default:
+			return 0, nil, nil, false
+		}
+	}
+	cmp, ok := stripConv(res).(*ssa.BinOp)
+	if !ok {
+		return 0, nil, nil, false
+	}
+	switch cmp.Op {
+	case token.EQL, token.NEQ, token.LSS, token.GEQ, token.GTR, token.LEQ:
+	default:
+		return 0, nil, nil, false
+	}
+	recvIdx := -1
+	if h.Signature.Recv() != nil {
+		recvIdx = 0
+	}
+	subst := func(v ssa.Value) (ssa.Value, bool) {
+		if q, isPrm := stripConv(v).(*ssa.Parameter); isPrm {
+			for i, hp := range h.Params {
+				if hp == q && i < len(call.Call.Args) {
+					return call.Call.Args[i], true
+				}
+			}
+			return nil, false
+		}
+		// no other parameter may occur inside
+		okFree := true
+		var walk func(x ssa.Value, d int)
+		walk = func(x ssa.Value, d int) {
+			if d > 6 {
+				return
+			}
+			if q, isPrm := x.(*ssa.Parameter); isPrm {
+				for i, hp := range h.Params {
+					if hp == q && i != recvIdx {
+						okFree = false
+					}
+				}
+				return
+			}
+			if in, isIn := x.(ssa.Instruction); isIn {
+				for _, op := range in.Operands(nil) {
+					if *op != nil {
+						walk(*op, d+1)
+					}
+				}
+			}
+		}
+		walk(v, 0)
+		return v, okFree
+	}
+	x, okx := subst(cmp.X)
+	y, oky := subst(cmp.Y)
+	if !okx || !oky {
+		return 0, nil, nil, false
+	}
+	return cmp.Op, x, y, true
 }
 
 // cmpWith is cmp() oriented so that subject - if it is one of the operands - is the left one (the operator is mirrored
@@ -1053,6 +1142,59 @@ func deepStoresTo(fn *ssa.Function, f *types.Var) []deepStore {
 	return out
 }
 
+// deepCall: a call of one of the target functions made by fn itself or by an unexported helper of the same package
+// (bounded depth); Site is the instruction in fn through which it happens, subst the helper-parameter translation.
+type deepCall struct {
+	Call  *ssa.Call
+	Site  ssa.Instruction
+	subst map[ssa.Value]ssa.Value
+}
+
+func (d deepCall) translate(v ssa.Value) ssa.Value {
+	if r, ok := d.subst[stripConv(v)]; ok {
+		return r
+	}
+	return v
+}
+
+func deepCallsTo(fn *ssa.Function, targets ...*ssa.Function) []deepCall {
+	var out []deepCall
+	var rec func(cur *ssa.Function, site ssa.Instruction, subst map[ssa.Value]ssa.Value, depth int)
+	rec = func(cur *ssa.Function, site ssa.Instruction, subst map[ssa.Value]ssa.Value, depth int) {
+		eachInstr(cur, func(in ssa.Instruction) {
+			call, ok := in.(*ssa.Call)
+			if !ok {
+				return
+			}
+			s := site
+			if s == nil {
+				s = in
+			}
+			if isCallToFn(call, targets...) {
+				out = append(out, deepCall{Call: call, Site: s, subst: subst})
+				return
+			}
+			callee := call.Call.StaticCallee()
+			if depth >= 2 || !isHelperOf(fn, callee) {
+				return
+			}
+			ns := map[ssa.Value]ssa.Value{}
+			for i, prm := range callee.Params {
+				if i < len(call.Call.Args) {
+					a := call.Call.Args[i]
+					if r, ok := subst[stripConv(a)]; ok {
+						a = r
+					}
+					ns[prm] = a
+				}
+			}
+			rec(callee, s, ns, depth+1)
+		})
+	}
+	rec(fn, nil, map[ssa.Value]ssa.Value{}, 0)
+	return out
+}
+
 // containsDeep: fn, or an unexported helper of the same package that it calls (transitively, bounded), contains an
 // instruction satisfying pred.
 func containsDeep(fn *ssa.Function, pred func(ssa.Instruction) bool, depth int) bool {
@@ -1158,5 +1300,16 @@ func storesDeep(fn *ssa.Function, f *types.Var) []fieldAccess {
 	for _, d := range deepStoresTo(fn, f) {
 		out = append(out, fieldAccess{Instr: d.Site, Field: f, Kind: "store", Val: d.translate(d.Store.Val)})
 	}
+	return out
+}
+
+// allCalls lists the call instructions (value calls, not go/defer) of fn in block order.
+func allCalls(fn *ssa.Function) []*ssa.Call {
+	var out []*ssa.Call
+	eachInstr(fn, func(in ssa.Instruction) {
+		if call, ok := in.(*ssa.Call); ok {
+			out = append(out, call)
+		}
+	})
 	return out
 }
